@@ -44,6 +44,7 @@ type Input struct {
 	Base string `json:"base,omitempty"` // certificate whose no-CT fingerprint this one must share
 	Note string `json:"note,omitempty"`
 	Hash bool   `json:"hash,omitempty"` // also recompute the fingerprints in Coq
+	Gen  bool   `json:"gen,omitempty"`  // built by the generator as a valid certificate: must be accepted when the standard library accepts it
 }
 
 // ---- DER building blocks ----
@@ -244,9 +245,13 @@ func baseSpec(c *vh.Ctx) spec {
 	names := []string{"a", "example.com", "Test CA", "x y", "root"}
 	s.subject = derName(names[c.Intn(len(names))], []string{"", "Org", "Acme Co"}[c.Intn(3)])
 	s.issuer = s.subject
-	switch c.Intn(4) {
+	switch c.Intn(6) {
 	case 0:
 		s.validity = tlv(0x30, utc("250101000000Z"), gen("20500101000000Z"))
+	case 4:
+		s.validity = tlv(0x30, utc("250101000000Z"), gen("99991231235959Z")) // RFC 5280 "no well-defined expiration"
+	case 5:
+		s.validity = tlv(0x30, utc("500101000000Z"), gen("23421231235959Z"))
 	case 1:
 		s.validity = tlv(0x30, utc("991231235959Z"), utc("491231235959Z"))
 	default:
@@ -403,7 +408,7 @@ func coqMeta(c *x509.Certificate) string {
 		vh.Bytes(c.RawSubjectPublicKeyInfo), vh.Z(int64(c.Version)), vh.Bool(c.SelfSigned),
 		vh.Bytes(c.FingerprintMD5), vh.Bytes(c.FingerprintSHA1), vh.Bytes(c.FingerprintSHA256),
 		vh.Bytes(c.SPKIFingerprint), vh.Bytes(c.TBSCertificateFingerprint), vh.Bytes(c.FingerprintNoCT),
-		vh.Bytes(c.SPKISubjectFingerprint))
+		vh.Bytes(c.SPKISubjectFingerprint), vh.Some(vh.Z(int64(c.ValidityPeriod))))
 }
 
 type entry struct {
@@ -455,6 +460,11 @@ func runCert(c *vh.Ctx, in Input) {
 	cert, err := x509.ParseCertificate(der)
 	if err != nil {
 		c.Stat("rejected", 1)
+		if in.Gen {
+			if _, serr := stdx509.ParseCertificate(der); serr == nil {
+				c.Violation("rejects-valid", fmt.Sprintf("a generated well-formed certificate the standard library accepts is rejected: %v", err), "case", in)
+			}
+		}
 		c.Case("case", vh.App("CCert", vh.Pair(vh.Bytes(der), "false", "(@nil (N * pre * bytes))", "false", "None")), in, "")
 		return
 	}
@@ -520,6 +530,10 @@ func runCert(c *vh.Ctx, in Input) {
 			bad(f.key, fmt.Sprintf("%s is %x, the hash of the raw bytes is %x", f.key, f.got, f.want))
 			return
 		}
+	}
+	if want := cert.NotAfter.Unix() - cert.NotBefore.Unix(); int64(cert.ValidityPeriod) != want {
+		bad("validity-period", fmt.Sprintf("ValidityPeriod %d, notAfter - notBefore is %d s", cert.ValidityPeriod, want))
+		return
 	}
 	if ok, known := stdSelfSigOK(der); known {
 		want := bytes.Equal(cert.RawIssuer, cert.RawSubject) && ok
@@ -624,7 +638,8 @@ func genAll(c *vh.Ctx) {
 	poison := derExt(oidPoison, true, derNull)
 	var valid [][]byte
 	emit := func(der []byte, base, note string, hash bool) {
-		runCert(c, Input{Der: vh.Hex(der), Base: base, Note: note, Hash: hash})
+		gen := note != "mutated" && note != "testdata" && !strings.HasPrefix(note, "nc:")
+		runCert(c, Input{Der: vh.Hex(der), Base: base, Note: note, Hash: hash, Gen: gen})
 	}
 	// 1. insertion families: every placement of each CT extension (and of both) in the extension list
 	for f := 0; f < 14*scale; f++ {
@@ -657,7 +672,10 @@ func genAll(c *vh.Ctx) {
 	// 2. single certificates: issuer <> subject, foreign signer, bad signature
 	for i := 0; i < 40*scale; i++ {
 		s := baseSpec(c)
-		switch c.Intn(5) {
+		switch c.Intn(6) {
+		case 5: // issuer differs from the subject in one byte only, signed with the own key
+			s.issuer = append([]byte{}, s.subject...)
+			s.issuer[len(s.issuer)-1] ^= 1
 		case 0:
 			s.issuer = derName("Other CA", "")
 		case 1:
@@ -678,17 +696,17 @@ func genAll(c *vh.Ctx) {
 		note := ""
 		switch i % 6 {
 		case 0:
-			s.version, note = tlv(0xa0, derInt(0)), "explicit version 0"
+			s.version, note = tlv(0xa0, derInt(0)), "nc: explicit version 0"
 		case 1:
-			s.exts, note = append(s.exts, tlv(0x30, oidPrivate, []byte{0x01, 0x01, 0x00}, tlv(0x04, []byte{1}))), "critical FALSE encoded"
+			s.exts, note = append(s.exts, tlv(0x30, oidPrivate, []byte{0x01, 0x01, 0x00}, tlv(0x04, []byte{1}))), "nc: critical FALSE encoded"
 		case 2:
-			s.version, note = []byte{0xa0, 0x01, 0x02, 0x01, 0x02}, "version wrapper shorter than its content"
+			s.version, note = []byte{0xa0, 0x01, 0x02, 0x01, 0x02}, "nc: version wrapper shorter than its content"
 		case 3:
-			s.version, note = []byte{0xa0, 0x06, 0x02, 0x01, 0x02}, "version wrapper longer than its content"
+			s.version, note = []byte{0xa0, 0x06, 0x02, 0x01, 0x02}, "nc: version wrapper longer than its content"
 		case 4:
-			s.exts, s.extBlock, note = nil, true, "empty extension list"
+			s.exts, s.extBlock, note = nil, true, "nc: empty extension list"
 		case 5:
-			s.validity, note = tlv(0x30, gen("20250101000000Z"), utc("3501010000Z")), "generalized time before 2050, utc without seconds"
+			s.validity, note = tlv(0x30, gen("20250101000000Z"), utc("3501010000Z")), "nc: generalized time before 2050, utc without seconds"
 		}
 		emit(s.der(), "", note, false)
 	}
